@@ -39,8 +39,8 @@ def _expect(nr, cutoff_t, n):
   return rv(n) * cutoff_t / rv(nr - 1)
 
 
-def api_case(nr, npots, derivs, route, h=None):
-  res = new_result("api nr=%d npots=%d derivs=%s route=%s%s" % (nr, npots, derivs, route, "" if h is None else " h=%g" % h))
+def api_case(nr, npots, derivs, route, h=None, intcore=False):
+  res = new_result("api nr=%d npots=%d derivs=%s route=%s%s%s" % (nr, npots, derivs, route, "" if h is None else " h=%g" % h, " int-valued core" if intcore else ""))
   import atsim.potentials as ap
   from atsim.potentials import Potential
   from atsim.potentials.pair_tabulation import LAMMPS_PairTabulation
@@ -55,11 +55,21 @@ def api_case(nr, npots, derivs, route, h=None):
       u = uf("U%d" % p, deriv=derivs[p])
       a, b = labels[p]
       pots.append(Potential(a, b, u) if h is None else Potential(a, b, u, h))
+    if intcore:
+      # potential 0 is written `if r < thr: return 0` (a python int) and is a float elsewhere
+      thr = sym("thr")
+      assume(thr > 0)
+      u0 = uf("U0", deriv=True)
+      pots[0] = Potential(labels[0][0], labels[0][1], common.IntCore(u0, u0.deriv, thr))
     out = io.StringIO()
-    if route == "class":
-      LAMMPS_PairTabulation(pots, cutoff, nr).write(out)
-    else:
-      ap.writePotentials("LAMMPS", pots, cutoff, nr, out)
+    core.INT_TAGS = intcore
+    try:
+      if route == "class":
+        LAMMPS_PairTabulation(pots, cutoff, nr).write(out)
+      else:
+        ap.writePotentials("LAMMPS", pots, cutoff, nr, out)
+    finally:
+      core.INT_TAGS = False
     return out.getvalue()
 
   def T(path, x):
@@ -94,6 +104,11 @@ def api_case(nr, npots, derivs, route, h=None):
           raise Structural("rowindex", "block %d row %d is numbered %d" % (p, n, idx))
         rn = _expect(nr, cutoff_t, n + (1 if wrong else 0))
         vcs.append(VC("p%d.r%d" % (p, n), eq_formula(T(path, r), rn), info=dict(key="r")))
+        if intcore and p == 0:
+          inside = rn < z3.Real("thr")
+          vcs.append(VC("p%d.E%d" % (p, n), eq_formula(T(path, e), z3.If(inside, rv(0), U(rn))), info=dict(key="E-int-valued-core")))
+          vcs.append(VC("p%d.F%d" % (p, n), eq_formula(T(path, f), z3.If(inside, rv(0), -dU(rn))), info=dict(key="F-int-valued-core")))
+          continue
         vcs.append(VC("p%d.E%d" % (p, n), eq_formula(T(path, e), U(rn)), info=dict(key="E")))
         if derivs[p]:
           want = -dU(rn)
@@ -106,6 +121,8 @@ def api_case(nr, npots, derivs, route, h=None):
     return vcs
 
   def replay(v, w, path, structural):
+    if intcore:
+      return common.replay_pair_intcore("LAMMPS", nr, npots, derivs, labels, w, route)
     return common.replay_pair_table("LAMMPS", nr, npots, derivs, labels, w, route, h)
 
   explore_and_check(res, fn, build, replay=replay, negative=lambda p: build(p, wrong=True))
@@ -319,6 +336,10 @@ def cases(tier, seed=0):
           cs.append(Case("api nr=%d n=%d d=%s %s" % (nr, npots, "".join("ad"[not d] for d in derivs), route),
                          api_case, nr=nr, npots=npots, derivs=derivs, route=route))
   cs.append(Case("api custom h", api_case, nr=4, npots=1, derivs=(False,), route="class", h=1e-5))
+  # potentials that return python ints over part of their range (`return 0` inside a cut-off core)
+  for nr, npots, route in ([(5, 1, "class"), (4, 2, "writePotentials")] if tier == "quick" else
+                           [(nr_, n_, r_) for nr_ in (3, 5, 8) for n_ in (1, 2) for r_ in ("class", "writePotentials")]):
+    cs.append(Case("api int-valued core nr=%d n=%d %s" % (nr, npots, route), api_case, nr=nr, npots=npots, derivs=(True,) * npots, route=route, intcore=True))
   for m in models:
     for nr in mnr:
       cs.append(Case("potable %s nr=%d" % (m, nr), potable_case, model_name=m, nr=nr))
